@@ -256,4 +256,26 @@ def c11(tier, seed):
                 assumptions=ASSUME_DISP + ASSUME_CLIENT[len(ASSUME_COMMON):], exhaustive=True, also_findings_of=['C07'])
 
 
-CHECKS = {'C04': c04, 'C11': c11, 'C07': c07, 'C08': c08, 'C09': c09, 'C19': c19, 'C10': c10, 'C01': c01, 'C02': c02, 'C03': c03, 'C05': c05, 'C06': c06, 'C12': c12}
+
+def c20(tier, seed):
+    quick = tier == 'quick'
+    st = Stage('mocker', mc=('MockerMC', 'Mocker_quick.cfg' if quick else 'Mocker_thorough.cfg'),
+               emit=('MockerMC', 'Mocker_quick_emit.cfg' if quick else 'Mocker_thorough_emit.cfg'),
+               extra_emits=[('MockerMC', 'Mocker_sim_emit.cfg', dict(simulate='num=%d' % (8000 if quick else 120000), depth=9, seed=None))]
+               + ([] if quick else [('MockerMC', 'Mocker_thorough4_emit.cfg', {})]),
+               driver='mocker', trace=('MockerTrace', 'MockerTrace.cfg'),
+               nontrivial=lambda tr: sum(1 for e in tr['ev'] if e['k'] in ('single', 'batch')) >= 2)
+    return dict(stages=[st],
+                rule='operation histories over 2 endpoints x 2 methods x {result, error, callback} patches x once on/off x '
+                     'replace at index 0/1 x remove (pair / endpoint) x reset x single / batch calls with ids 0, 1, "" and '
+                     'positional / named params x passthrough on/off: ALL histories of length 3 over a %d-operation alphabet '
+                     '(TLC exhaustive) plus %d random walks of length 7 over the full 39-operation alphabet (tlc -simulate, seeded '
+                     'by VERIF_SEED)%s; each history is replayed on a PjRpcMocker patched over a synchronous and an asynchronous '
+                     'transport; after every operation the reply documents and mocker.calls are validated by TLC; '
+                     'non-trivial = at least two answered calls' % ((15, 8000, '') if quick else (39, 120000, ' plus all histories of length 4 over the 15-operation alphabet')),
+                assumptions=ASSUME_COMMON + ['replace(idx) addresses the patch list as it currently stands (it rotates with every '
+                                             'answered call), as the implementation defines it'],
+                exhaustive=False)
+
+
+CHECKS = {'C04': c04, 'C20': c20, 'C11': c11, 'C07': c07, 'C08': c08, 'C09': c09, 'C19': c19, 'C10': c10, 'C01': c01, 'C02': c02, 'C03': c03, 'C05': c05, 'C06': c06, 'C12': c12}
